@@ -36,6 +36,10 @@ def main():
 
         common.run_main(lambda: selftest.main(tier, seed))
     pid = a.what.upper()
+    if pid == "EXT":
+        from . import ext_switch
+
+        common.run_main(lambda: ext_switch.main(tier, seed))
     if pid not in CHECKS:
         print(f"unknown check {a.what}")
         sys.exit(2)
